@@ -13,6 +13,7 @@ use crate::tape::Tape;
 pub struct Accessors;
 impl Prop for Accessors {
     type Case = Case;
+    crate::prog_shrink!();
     fn name(&self) -> String {
         "C15/accessors".into()
     }
